@@ -33,6 +33,10 @@ def run(ctx):
     # it never rejects a block that one more read completes into an accepted one (the clamp table of C12.R1 under C06.R5)
     from .c12 import clamps
     clamps(ctx, "C06.R5")
+    ctx.rule("C06.R7", "K3", "(= C07.R1) the unread body of the previous request is discarded completely -- by a loop that reads until nothing is left, however the body is cut across reads -- before the next message is parsed")
+    from . import c07
+    from .common import MultiAlias
+    c07.r1(MultiAlias(ctx, {"C07.R1": "C06.R7"}))
 
 
 # ---------------------------------------------------------------------------- helpers
